@@ -328,6 +328,77 @@ def _is_loop_freq(S, nm, f):
     return False
 
 
+def check_bmin_guard(ctx, R, prefix=()):
+    """the bmin enforcement tests the resolution that the three-way compromise selected on that path
+    (structural core of 'no bin falls below bmin by more than the rounding of L')."""
+    key = R.key; where = R.repo.where(key, R.repo.get(key))
+    Ff = R.field("f"); FL = R.field("L")
+    if Ff is None or FL is None: return
+    refs = ref_consts()
+    bmin = X.var("bmin")
+    fx = next((l for _, l in pv_leaves(Ff[0]) if isinstance(l, X)), None)
+    if fx is None: return
+    ideal = fx * refs["logfact"]
+    c_a = ideal - refs["freslim"]
+    mid = (refs["freslim"] * ideal).sqrt()
+    c_b = refs["fresmin"] - mid
+
+    def chosen(path):
+        pa = pb = None
+        for cond, pol in path:
+            d = getattr(cond, "lt", None)
+            if d is None: continue
+            if d.eq(c_a): pa = pol
+            elif d.eq(-c_a): pa = not pol
+            if d.eq(c_b): pb = pol
+            elif d.eq(-c_b): pb = not pol
+        if pa is False: return ideal          # fres_ideal >= freslim
+        if pa is True and pb is True: return mid
+        if pa is True and pb is False: return refs["fresmin"]
+        return None
+
+    def freq_of(path):
+        """the frequency at which the compromise is evaluated on this path: phi with (phi*logfact - freslim) tested."""
+        for cond, pol in path:
+            d = getattr(cond, "lt", None)
+            if d is None: continue
+            for sg in (1, -1):
+                try: phi = (d * sg + refs["freslim"]) / refs["logfact"]
+                except Unknown: continue
+                if not ({"Kdes", "olap"} & phi.fv()) and phi.fv(): return phi
+        return None
+
+    def g(l, path=None):
+        nonlocal ideal, c_a, mid, c_b, fx
+        phi = freq_of(path)
+        if phi is not None and not phi.eq(fx):
+            fx = phi
+            ideal = fx * refs["logfact"]; c_a = ideal - refs["freslim"]
+            mid = (refs["freslim"] * ideal).sqrt(); c_b = refs["fresmin"] - mid
+        rho_star = chosen(path)
+        if rho_star is None: return HOLDS, "", None, None
+        for cond, pol in path:
+            d = getattr(cond, "lt", None)
+            if d is None or "bmin" not in d.fv(): continue
+            # d = f/rho - bmin  (fbin < bmin)
+            try:
+                q = (d + bmin)
+                if q.iszero(): continue
+                rho = fx / q
+            except Unknown:
+                continue
+            try:
+                cands = [ideal, mid, refs["fresmin"]]
+                if not any(rho.eq(cd) for cd in cands): continue
+            except Unknown:
+                continue
+            if rho.eq(rho_star): return HOLDS, "", rho, rho_star
+            return VIOLATED, ("the minimum-bin test compares f/rho with bmin for rho = a resolution that is not the one selected on this path: the cap is applied "
+                              "(or skipped) for the wrong bins, so bins can fall below bmin"), rho, rho_star
+        return HOLDS, "", None, None
+    leafwise(ctx, "R7-bmin-enforcement", f"{key}[bmin test]", where, [FL[0]], g, "the bmin cap tests the selected resolution", prefix=prefix)
+
+
 def check_lpsd_wrapper(ctx, repo):
     key = f"{SCHED}::lpsd_plan"; fn = repo.get(key); where = repo.where(key, fn)
     ctx.analysed(key)
